@@ -270,8 +270,9 @@ Section ExecArgs.
   Proof.
     induction 1 as [|t l Ht Hl IH|m o a c l Hm Ho Hc Hb Ha _ Hl _|m body l Hm Hl _|t l Ht Hn Hl _].
     - exists []. repeat split; constructor.
-    - cbn [skip_ctl]. destruct (buf_is_space t && negb (is_lang t)) eqn:E.
+    - cbn [skip_ctl]. destruct (buf_is_space t && negb (is_lang t) && negb (is_action t)) eqn:E.
       + apply andb_true_iff in E. destruct E as [E _].
+        apply andb_true_iff in E. destruct E as [E _].
         destruct IH as (pre & E1 & F1 & F2 & B). exists (t :: pre).
         split; [cbn [app]; f_equal; exact E1|].
         split; [constructor; assumption|]. split; [constructor; assumption | exact B].
@@ -690,7 +691,7 @@ Section ExecArgs.
   Lemma mu_skip ms b : (mu ms (skip_ctl b) <= mu ms b)%nat.
   Proof.
     induction b as [|t b IH]; simpl; [lia|].
-    destruct (buf_is_space t && negb (is_lang t)); simpl; lia.
+    destruct (buf_is_space t && negb (is_lang t) && negb (is_action t)); simpl; lia.
   Qed.
   Lemma wt_pos ms t : (1 <= wt ms t)%nat.
   Proof.
